@@ -194,6 +194,8 @@ ExpungeU(b, m) == [k |-> "Expunge", box |-> b, m |-> m]
 \* a combo of flag sub-updates, each [op, ms (sequence), f, box, st, asuid, silent]
 FlagsU(subs) == [k |-> "Flags", subs |-> subs]
 RemoteFlagU(m, op, f) == [k |-> "RFlag", m |-> m, op |-> op, f |-> f]
+\* MessageIDChanged: the new remote id travels to the snapshots as an update without client-visible effect
+IdU(m) == [k |-> "IdChg", m |-> m]
 
 QueuedExists(rs, m) == \E i \in 1..Len(rs) : rs[i].k = "Exists" /\ rs[i].m = m
 
@@ -204,6 +206,7 @@ Passes(u, s, sn, rs) ==
        [] u.k = "Expunge" -> sel[s] = u.box /\ (HasMsg(sn, u.m) \/ (FixFilter /\ QueuedExists(rs, u.m)))
        [] u.k = "Flags"   -> TRUE
        [] u.k = "RFlag"   -> HasMsg(sn, u.m) \/ (FixFilter /\ QueuedExists(rs, u.m))
+       [] u.k = "IdChg"   -> HasMsg(sn, u.m) \/ (FixFilter /\ QueuedExists(rs, u.m))
 
 \* the filter drops an update although an Exists for its message is queued (deviation F1)
 DropsQueued(u, s, sn, rs) ==
@@ -230,6 +233,7 @@ Responders(u, s, own) ==
     [] u.k = "Expunge" -> <<[k |-> "Expunge", m |-> u.m]>>
     [] u.k = "Flags"   -> SubResponders(u.subs, s, own)
     [] u.k = "RFlag"   -> <<[k |-> "Fetch", m |-> u.m, f |-> u.f, op |-> u.op, asuid |-> FALSE, silent |-> FALSE, other |-> FALSE]>>
+    [] u.k = "IdChg"   -> <<>>
 
 \* the command's own updates are applied to its own state at once, in order:
 \* filter on the *current* snapshot, then PushResponder (queue: the session is not idle)
@@ -246,11 +250,12 @@ MsgsOfUpdate(u) ==
     [] u.k = "Expunge" -> {u.m}
     [] u.k = "Flags"   -> UNION {SeqToSet(u.subs[i].ms) : i \in 1..Len(u.subs)}
     [] u.k = "RFlag"   -> {u.m}
+    [] u.k = "IdChg"   -> {}          \* nothing a client can see depends on its position in the queue
 JumpsQueue(s, us) ==
   \E i \in 1..Len(us), j \in 1..Len(q[s]) : MsgsOfUpdate(us[i]) \cap MsgsOfUpdate(q[s][j]) # {}
 
 \* could update u pass the filter of a session that has mailbox b selected?
-Relevant(u, b) == IF u.k \in {"Exists", "Expunge"} THEN u.box = b ELSE TRUE
+Relevant(u, b) == IF u.k \in {"Exists", "Expunge"} THEN u.box = b ELSE u.k # "IdChg"
 
 EnqueueOthers(s, us) == [t \in Sessions |-> IF t = s THEN q[t] ELSE q[t] \o us]
 EnqueueAll(us) == [t \in Sessions |-> q[t] \o us]
@@ -722,8 +727,10 @@ ConnCreateKnown(m, b) ==
 ConnIDChanged(m) ==
   /\ m \in used
   /\ wire' = Quiet
+  \* (a message that is in no mailbox cannot be addressed by the replay: the step is a no-op there)
+  /\ q' = IF \E b \in Boxes : HasMsg(rows[b], m) THEN EnqueueAll(<<IdU(m)>>) ELSE q
   /\ Log("ConnIDChanged", None, <<m>>, "OK")
-  /\ UNCHANGED <<rows, uidNext, flg, used, dead, recd, sel, ro, snap, res, q, idle, mirror, taint, ever>>
+  /\ UNCHANGED <<rows, uidNext, flg, used, dead, recd, sel, ro, snap, res, idle, mirror, taint, ever>>
 
 \* MessageDeleted: removed from every mailbox (the entity is only marked deleted)
 ConnDelete(m) ==
